@@ -55,6 +55,20 @@ func (r *ResponseWriter[C]) SetResponse(code codes.Code, contentFormat message.M
 	return nil
 }
 
+// DropIfNotOfInterest applies RFC 7967 to the response as it stands now, however it was set: SetResponse refuses a
+// response of a class the request marked as not of interest, SetMessage and Message() cannot. Such a response is
+// emptied, so that nothing is sent but the bare acknowledgement of a confirmable request. It reports whether it did so.
+func (r *ResponseWriter[C]) DropIfNotOfInterest() bool {
+	if r.noResponseValue == nil || !r.response.IsModified() {
+		return false
+	}
+	if noresponse.IsNoResponseCode(r.response.Code(), *r.noResponseValue) == nil {
+		return false
+	}
+	r.response.Reset()
+	return true
+}
+
 // SetMessage replaces the response message. The original message was released to the message pool, so don't use it any more. Ensure that Token, MessageID(udp), and Type(udp) messages are paired correctly.
 func (r *ResponseWriter[C]) SetMessage(m *pool.Message) {
 	r.cc.ReleaseMessage(r.response)
